@@ -133,3 +133,49 @@ theorem copyUnshadowed_eq (linked : List PropInfo) : ∀ (own : List PropInfo),
       simp [List.any_append, hne]
 
 end Nix.C20
+
+namespace Nix.C20
+open Nix.Search Nix.Search.Tree
+variable {α : Type}
+
+/-- `Section::tree_depth()` is the height of what hangs under the section -/
+theorem treeDepthL_eq_heightL (n : Nat) : ∀ (ts : List (Tree α)), sizeL ts ≤ n → treeDepthL ts = heightL ts := by
+  induction n with
+  | zero =>
+    intro ts h
+    cases ts with
+    | nil => rfl
+    | cons t ts => have := size_eq t; simp [sizeL] at h; omega
+  | succ n ih =>
+    intro ts h
+    cases ts with
+    | nil => rfl
+    | cons t ts =>
+      have hs : sizeL (t :: ts) = size t + sizeL ts := by simp [sizeL]
+      have h1 : treeDepthL t.children = heightL t.children := ih _ (by have := size_eq t; omega)
+      have h2 : treeDepthL ts = heightL ts := ih _ (by have := size_eq t; omega)
+      have h3 : treeDepth t = treeDepthL t.children := by cases t; simp [treeDepth, children]
+      simp only [treeDepthL, heightL, height_eq, h3, h1, h2]
+      omega
+
+theorem treeDepth_eq (t : Tree α) : treeDepth t = heightL t.children := by
+  have h3 : treeDepth t = treeDepthL t.children := by cases t; simp [treeDepth, children]
+  rw [h3, treeDepthL_eq_heightL _ _ (Nat.le_refl _)]
+
+/-- nothing found in `k` generations means nothing accepted in the first `k` generations -/
+theorem firstHit_nil (f : Tree α → Bool) : ∀ (k : Nat) (ts : List (Tree α)), firstHit f k ts = [] → (levels k ts).filter f = [] := by
+  intro k
+  induction k with
+  | zero => intro ts _; rfl
+  | succ k ih =>
+    intro ts h
+    simp only [firstHit] at h
+    by_cases he : (ts.filter f).isEmpty
+    · simp only [he, if_true] at h
+      rw [levels, List.filter_append, ih _ h, List.isEmpty_iff.1 he]
+      rfl
+    · simp only [he, Bool.false_eq_true, if_false] at h
+      rw [h] at he
+      exact absurd rfl he
+
+end Nix.C20
